@@ -245,6 +245,16 @@ def fam_mem(rng, tier):
     # stores in a diamond, load after the join
     L1, L2 = g.lab(), g.lab()
     g.func("store_diamond", "i64, p:p, i64:c, i64:a", ["local i64:r", "mov i64:8(p), a", "bf %s, c" % L1, "mov i32:8(p), 5", "jmp %s" % L2, "%s:" % L1, "mov i16:10(p), c", "%s:" % L2, "mov r, i64:8(p)", "ret r"], p="buf0")
+    # compare insns with a memory operand and an immediate / register (the x86 patterns have separate memory forms per width)
+    cm = [("eqs", "i32", 5), ("nes", "u32", -1), ("lts", "i32", 0), ("ules", "u32", 127), ("eq", "i64", 5), ("ult", "i64", -128), ("ges", "i32", 128), ("gt", "i64", 0x7fffffff)]
+    if tier == "quick":
+        cm = cm[:5]
+    for k in range(0, len(cm), 2):
+        body = ["local i64:r, i64:t", "mov r, 0"]
+        for j, (op, t, imm) in enumerate(cm[k:k + 2]):
+            body += ["%s t, %s:%d(p), %d" % (op, t, 8 * j, imm), "lsh r, r, 1", "or r, r, t", "%s t, a, %s:%d(p)" % (op, t, 16 + 8 * j), "lsh r, r, 1", "or r, r, t"]  # distinct cells: a shared load would stay a register
+        body.append("ret r")
+        g.func("cmpmem%d" % (k // 2), "i64, p:p, i64:a", body, p="buf0")
     # fp / long double moves through memory
     g.func("fpmem", "d, p:p, d:x, f:y", ["local d:r, f:t", "dmov d:(p), x", "fmov f:12(p), y", "dmov r, d:8(p)", "fmov t, f:4(p)", "fmov f:16(p), t", "ret r"], p="buf0")
     g.func("ldmem", "ld, p:p, ld:x", ["local ld:r", "ldmov r, ld:16(p)", "ldmov ld:(p), x", "ret r"], p="buf0")
@@ -301,6 +311,15 @@ def fam_alloca(rng, tier):
     g = Fam("alloca", rng)
     g.func("alloca_const", "i64, i64:a, i64:b", ["local i64:p, i64:r", "alloca p, 32", "mov i64:(p), a", "mov i64:8(p), b", "mov i32:20(p), a", "add r, i64:(p), i64:8(p)", "add r, r, i32:20(p)", "ret r"])
     g.func("alloca_var", "i64, i64:n, i64:a", ["local i64:p, i64:sz, i64:r", "lsh sz, n, 3", "alloca p, sz", "mov i64:(p), a", "mov i64:-8(p, n, 8), n", "add r, i64:(p), i64:-8(p, n, 8)", "ret r"], n="1..4")
+    # overlapping stores of different widths into one alloca block, then a load (dead-store elimination / store-to-load forwarding
+    # decide on [offset, offset+size) intersections of alloca-based memory)
+    shapes = [("i64", 0, "u32", 4, "u16", 4), ("i64", 0, "u8", 7, "i64", 0), ("u32", 4, "i64", 0, "u32", 4), ("u16", 2, "u8", 3, "i32", 0),
+              ("i64", 8, "u16", 6, "i64", 0), ("u8", 8, "i64", 1, "i64", 8)]
+    if tier == "quick":
+        shapes = shapes[:4]
+    for k, (t1, o1, t2, o2, tl, ol) in enumerate(shapes):
+        g.func("alloca_ovl%d" % k, "i64, i64:a, i64:b", ["local i64:p, i64:r", "alloca p, 16", "mov i64:(p), a", "mov i64:8(p), a", "mov %s:%d(p), a" % (t1, o1), "mov %s:%d(p), b" % (t2, o2),
+                                                       "mov r, %s:%d(p)" % (tl, ol), "ret r"])
     g.func("alloca_two", "i64, i64:a, i64:b", ["local i64:p, i64:q, i64:r", "alloca p, 16", "alloca q, 24", "mov i64:(p), a", "mov i64:16(q), b", "mov i64:8(p), 3", "sub r, i64:(p), i64:16(q)", "add r, r, i64:8(p)", "ret r"])
     return g
 
@@ -412,6 +431,11 @@ def fam_fold(rng, tier):
     for op in FOLD_SH:
         for _ in range(4 if tier == "thorough" else 1):
             triples.append((op, rng.choice(BOUNDARY), rng.choice([0, 1, 5, 31] + ([32, 63] if not op.endswith("s") else []))))
+    # every compare opcode on pairs that tell signed from unsigned and 32-bit from 64-bit (a fold table has one entry per opcode)
+    for op in FOLD_OPS:
+        if op.rstrip("s") in ("eq", "ne", "lt", "ult", "le", "ule", "gt", "ugt", "ge", "uge") and op not in ("adds", "subs", "muls", "ands", "ors", "xors"):
+            for a, b in ((1, -1), (0x80000000, 0x7fffffff), (0x100000001, 2)) + (((-0x8000000000000000, 1), (-1, -1)) if tier == "thorough" else ()):
+                triples.append((op, a, b))
     # the known-wrong strength reduction candidate shapes: 32-bit multiply by 2^k, k >= 32, and by 2^31
     triples += [("muls", 5, 0x100000000), ("muls", 0x100000000, 7), ("muls", 3, 0x80000000), ("mul", 3, -0x8000000000000000)]
     per = 8
